@@ -234,6 +234,16 @@ pub fn check(case: &C03Case, st: &mut Stats) -> Verdict {
             return Err(Failure::new(panic_sig("SDJWTVerifier::new", &p), format!("verifier panicked on the honest full presentation: {}", p)));
         }
     }
+    // … and a list that is rejected half-way (all genuine disclosures, then garbage): a failed
+    // call must not leave anything behind either
+    {
+        st.sub(1);
+        let mut poisoned = genuine.to_vec();
+        poisoned.push("!!!".to_string());
+        if let (_, Out::Panic(p)) = run(&poisoned) {
+            return Err(Failure::new(panic_sig("SDJWTVerifier::new", &p), format!("verifier panicked on genuine disclosures followed by a garbage string: {}", p)));
+        }
+    }
     let (text, out) = run(&list);
     let text = text.unwrap_or_default();
     let describe = || {
